@@ -38,11 +38,14 @@ def run(ref):
         os.makedirs(tmp + '/.v')
         shutil.copy(V + '/known_findings.json', tmp + '/.v/known_findings.json')
         alarms = []
-        for c in checks:
-            o = subprocess.run([V + '/bin/cecheck', c, '--repo', tmp, '--verif', tmp + '/.v'], capture_output=True, text=True, env=env)
-            if o.returncode != 0:
-                first = [l for l in o.stdout.splitlines() if not l.startswith('KNOWN-FINDING') and not l.startswith('VIOLATION') and (': C' in l or 'BROKEN' in l)]
-                alarms.append('%s(exit %d): %s' % (c, o.returncode, (first[0][:260] if first else '?')))
+        o = subprocess.run([V + '/bin/cecheck', 'ALL', '--repo', tmp, '--verif', tmp + '/.v'], capture_output=True, text=True, env=env)
+        if o.returncode != 0:
+            import re
+            for l in o.stdout.splitlines():
+                if l.startswith('KNOWN-FINDING') or l.startswith('VIOLATION'):
+                    continue
+                if re.match(r'^\S+: C\d\d[.]', l) or 'CHECKER-BROKEN' in l:
+                    alarms.append(l[:300])
         return (name, 'silent' if not alarms else 'FALSE-ALARM', alarms)
     finally:
         shutil.rmtree(tmp, ignore_errors=True)
